@@ -12,7 +12,7 @@ import subprocess
 import sys
 import time
 
-VERIF = '/verif'
+VERIF = os.environ.get('VERIF_ROOT') or os.path.dirname(os.path.dirname(os.path.abspath(__file__)))
 REPO = '/repo'
 WORK = os.path.join(VERIF, '.work')
 DRIVER = os.path.join(VERIF, 'ocaml', 'driver')
